@@ -15,33 +15,54 @@
 EXTENDS Integers, Sequences, FiniteSets, TLC, Json, Decimal
 
 CONSTANTS
-    Signs,        \* subset of BOOLEAN (TRUE = negative)
-    Sigs,         \* normalised digit sequences (significands)
-    Exps,         \* decades
-    Precs,        \* requested significant digits
-    UncSigs,      \* digit sequences of uncertainties
-    UncOffs,      \* decades below the value's decade at which the uncertainty sits
-    UncPrecs,     \* requested digits of the uncertainty
-    Units,        \* unit texts ("" = none)
-    Convs,        \* subset of ConvTable: conversions to a requested display unit
-    UncSrcs,      \* subset of {"arg", "attr"}: uncertainty passed as argument / carried by the number itself
-    RomanMax      \* Roman numerals 1..RomanMax (0 = none)
+    SliceTable,   \* slice name -> record of the alphabets the inputs of that slice are drawn from
+    SliceNames    \* the slices explored in this run
 
-VARIABLES stage, mode, x, n, xe, p, unit, out, rn, rrem, rsyms, conv, usrc
+VARIABLES stage, mode, x, n, xe, p, unit, out, rn, rrem, rsyms, conv, usrc, opt, sl
 
-vars == <<stage, mode, x, n, xe, p, unit, out, rn, rrem, rsyms, conv, usrc>>
+vars == <<stage, mode, x, n, xe, p, unit, out, rn, rrem, rsyms, conv, usrc, opt, sl>>
+
+SliceRec == SliceTable[sl]
+Signs == SliceRec.Signs        \* subset of BOOLEAN (TRUE = negative)
+Sigs == SliceRec.Sigs          \* normalised digit sequences (significands)
+Exps == SliceRec.Exps          \* decades
+Precs == SliceRec.Precs        \* requested significant digits
+UncSigs == SliceRec.UncSigs    \* digit sequences of uncertainties
+UncOffs == SliceRec.UncOffs    \* decades below the value's decade at which the uncertainty sits
+UncPrecs == SliceRec.UncPrecs  \* requested digits of the uncertainty
+Units == SliceRec.Units        \* unit texts ("" = none)
+Convs == SliceRec.Convs        \* subset of ConvTable: conversions to a requested display unit
+UncSrcs == SliceRec.UncSrcs    \* subset of {"arg", "attr"}: uncertainty passed / carried by the number itself
+RomanMax == SliceRec.RomanMax  \* Roman numerals 1..RomanMax (0 = none)
+Opts == SliceRec.Opts          \* option records (see DefaultOpt) other than the default
 
 None == [none |-> TRUE]
 
 (* display in another unit: the number is given in unit `from` and its printing is requested in unit   *)
 (* `to`; the printed value and uncertainty denote the given ones times the exact factor 10^k.          *)
-(* (Only decimal factors are tabulated, so that the exact decimal arithmetic is an exponent shift.)    *)
-CV(f, t, k) == [from |-> f, to |-> t, k |-> k]
+(* 10^k times the natural number m (m = 1 for the decimal conversions; time units need 60 and 3600).    *)
+CVm(f, t, k, m) == [from |-> f, to |-> t, k |-> k, m |-> m]
+CV(f, t, k) == CVm(f, t, k, 1)
 NoConv == CV("", "", 0)
 ConvTable == { CV("km", "m", 3), CV("m", "km", -3), CV("m", "cm", 2), CV("cm", "m", -2), CV("mm", "m", -3),
                CV("m3/mol/s", "1/M/s", 3), CV("1/M/s", "m3/mol/s", -3), CV("M", "mol/m3", 3),
                CV("mol/m3", "M", -3), CV("kJ/mol", "J/mol", 3), CV("g", "kg", -3), CV("kg", "g", 3),
-               CV("ms", "s", -3) }
+               CV("ms", "s", -3), CVm("hour", "s", 0, 3600), CVm("min", "s", 0, 60), CVm("hour", "min", 0, 60),
+               CVm("hour", "ms", 3, 3600), CV("s", "ms", 3), CV("km", "cm", 5) }
+ConvOf(f, t) == CHOOSE c \in ConvTable : c.from = f /\ c.to = t
+
+(* options of the call that must not change what is denoted:                                          *)
+(*   api    "number" (number_to_scientific_*, and the reaction printers built on them: default        *)
+(*          precision 5, with uncertainty 2) | "rxnstring" (Reaction.string: default precision 3)     *)
+(*   impl   the precision argument is left out: the documented default applies                        *)
+(*   fsty   "g" (integer precision, %g presentation) | "e" (a caller-supplied formatter that always    *)
+(*          writes n digits and a power of ten)                                                       *)
+(*   xty    type of the number handed over: "float" | "int" | "npfloat" | "nparray" | "npint"          *)
+(*   uname  the unit the number is expressed in, when it matters ("" otherwise)                        *)
+(*   ucv    the uncertainty is expressed in another unit than the display unit: its conversion         *)
+DefaultOpt == [api |-> "number", impl |-> FALSE, fsty |-> "g", xty |-> "float", uname |-> "", ucv |-> NoConv]
+DefaultPrec(api) == IF api = "rxnstring" THEN 3 ELSE 5
+DefaultUncPrec == 2
 
 ------------------------------------------------------------------------------
 (* observations *)
@@ -70,6 +91,13 @@ NumberClause(o, v, k, slack) ==
 \* scientific otherwise; trailing zeros are not written; a scientific significand that is
 \* exactly 1 is not written ("10^5")
 GStyle(r, k) == IF r.e < -4 \/ r.e >= k THEN "sci" ELSE "fixed"
+\* a formatter that always writes k digits and a power of ten ("%.{k-1}e"); the significand is
+\* omitted when it reads "1" or "1.0"
+PresentE(v, k) ==
+    LET r == RoundSig(v, k) IN
+    IF r.digs = <<1>> /\ k <= 2 /\ ~r.neg
+    THEN [neg |-> FALSE, digs |-> <<>>, ndec |-> 0, omitted |-> TRUE, hasexp |-> TRUE, exp |-> r.e]
+    ELSE [neg |-> r.neg, digs |-> PadDigits(r.digs, k), ndec |-> k - 1, omitted |-> FALSE, hasexp |-> TRUE, exp |-> r.e]
 Present(v, k) ==
     LET r == RoundSig(v, k)
         st == GStyle(r, k)
@@ -183,64 +211,86 @@ GreedyToken(r) == RomanTokens[CHOOSE i \in 1..Len(RomanTokens) :
 
 ------------------------------------------------------------------------------
 \* the value / uncertainty in the display unit
-Shown(v) == Dec(v.neg, v.digs, v.e + conv.k)
+Scaled(v, c) == LET w == IF c.m = 1 THEN v ELSE DScale(v, c.m) IN Dec(w.neg, w.digs, w.e + c.k)
+Shown(v) == Scaled(v, conv)
+\* the uncertainty may be expressed in a unit of its own
+ShownU(v) == IF opt.ucv = NoConv THEN Scaled(v, conv) ELSE Scaled(v, opt.ucv)
+DisplayName == IF conv # NoConv THEN conv.to ELSE opt.uname
 
 Init ==
     /\ stage = "start" /\ mode = "none" /\ x = DZero /\ n = 0 /\ xe = DZero /\ p = 0
     /\ unit = "" /\ out = None /\ rn = 0 /\ rrem = 0 /\ rsyms = <<>> /\ conv = NoConv /\ usrc = ""
+    /\ opt = DefaultOpt /\ sl \in SliceNames
 
 ChooseValue(v) ==
     /\ stage = "start" /\ IsNorm(v) /\ v.digs # <<>>
     /\ x' = v /\ stage' = "value"
-    /\ UNCHANGED <<mode, n, xe, p, unit, out, rn, rrem, rsyms, conv, usrc>>
+    /\ UNCHANGED <<mode, n, xe, p, unit, out, rn, rrem, rsyms, conv, usrc, opt, sl>>
 
 WithUnit(u) ==
     /\ stage = "value" /\ unit = "" /\ u # ""
     /\ unit' = u
-    /\ UNCHANGED <<stage, mode, x, n, xe, p, out, rn, rrem, rsyms, conv, usrc>>
+    /\ UNCHANGED <<stage, mode, x, n, xe, p, out, rn, rrem, rsyms, conv, usrc, opt, sl>>
+
+\* options of the call (see DefaultOpt)
+IsIntegral(v) == LastPos(v) >= 0 /\ v.e <= 17
+Options(o) ==
+    /\ stage = "value" /\ opt = DefaultOpt /\ o # DefaultOpt /\ conv = NoConv /\ unit = ""
+    /\ o.api \in {"number", "rxnstring"} /\ o.fsty \in {"g", "e"} /\ o.impl \in BOOLEAN
+    /\ o.xty \in {"float", "int", "npfloat", "nparray", "npint"}
+    /\ (o.xty \in {"int", "npint"} => IsIntegral(x))
+    /\ (o.fsty = "e" => (o.api = "number" /\ ~o.impl))
+    /\ (o.ucv = NoConv \/ o.ucv \in ConvTable)
+    /\ opt' = o
+    /\ UNCHANGED <<stage, mode, x, n, xe, p, unit, out, rn, rrem, rsyms, conv, usrc, sl>>
 
 \* the number is to be shown in another unit of the same dimension
 ConvertTo(f, t) ==
-    /\ stage = "value" /\ conv = NoConv
+    /\ stage = "value" /\ conv = NoConv /\ opt.uname \in {"", f} /\ opt.api = "number"
     /\ \E c \in ConvTable : c.from = f /\ c.to = t /\ conv' = c
-    /\ UNCHANGED <<stage, mode, x, n, xe, p, unit, out, rn, rrem, rsyms, usrc>>
+    /\ UNCHANGED <<stage, mode, x, n, xe, p, unit, out, rn, rrem, rsyms, usrc, opt, sl>>
 
 ChoosePrecision(k) ==
     /\ stage = "value" /\ k >= 1
+    /\ (opt.impl => k = DefaultPrec(opt.api))
     /\ n' = k /\ mode' = "number" /\ stage' = "prec"
-    /\ UNCHANGED <<x, xe, p, unit, out, rn, rrem, rsyms, conv, usrc>>
+    /\ UNCHANGED <<x, xe, p, unit, out, rn, rrem, rsyms, conv, usrc, opt, sl>>
 
 Format ==
     /\ stage = "prec" /\ mode = "number"
-    /\ out' = Present(Shown(x), n) /\ stage' = "done"
-    /\ UNCHANGED <<mode, x, n, xe, p, unit, rn, rrem, rsyms, conv, usrc>>
+    /\ out' = (IF opt.fsty = "e" THEN PresentE(Shown(x), n) ELSE Present(Shown(x), n)) /\ stage' = "done"
+    /\ UNCHANGED <<mode, x, n, xe, p, unit, rn, rrem, rsyms, conv, usrc, opt, sl>>
 
 \* uncertainty: positive, at most half the magnitude of the value
 ChooseUncert(u, k, src) ==
-    /\ stage = "value" /\ k >= 1 /\ src \in {"arg", "attr"} /\ usrc' = src /\ IsNorm(u) /\ u.digs # <<>> /\ ~u.neg
-    /\ WithinTol(u, DNeg(u), <<Dec(FALSE, x.digs, x.e)>>)           \* 2 u <= |x|
+    /\ stage = "value" /\ k >= 1 /\ src \in {"arg", "attr"} /\ usrc' = src
+    /\ (opt.impl => k = DefaultUncPrec) /\ opt.fsty = "g" /\ opt.api = "number"
+    /\ (opt.ucv # NoConv => (src = "arg" /\ DisplayName # "" /\ opt.ucv.to = DisplayName)) /\ IsNorm(u) /\ u.digs # <<>> /\ ~u.neg
+    /\ LET su == ShownU(u)  sx == Shown(x) IN
+       WithinTol(su, DNeg(su), <<Dec(FALSE, sx.digs, sx.e)>>)       \* 2 u <= |x| (in the display unit)
     /\ xe' = u /\ p' = k /\ mode' = "uncert" /\ stage' = "unc"
-    /\ UNCHANGED <<x, n, unit, out, rn, rrem, rsyms, conv>>
+    /\ UNCHANGED <<x, n, unit, out, rn, rrem, rsyms, conv, opt, sl>>
 
 FormatUncert ==
     /\ stage = "unc" /\ mode = "uncert"
-    /\ out' = UncertLayouts(Shown(x), Shown(xe), p) /\ stage' = "done"
-    /\ UNCHANGED <<mode, x, n, xe, p, unit, rn, rrem, rsyms, conv, usrc>>
+    /\ out' = UncertLayouts(Shown(x), ShownU(xe), p) /\ stage' = "done"
+    /\ UNCHANGED <<mode, x, n, xe, p, unit, rn, rrem, rsyms, conv, usrc, opt, sl>>
 
-RomanChoose(k) ==
-    /\ stage = "start" /\ k >= 1
+RomanChoose(k, ty) ==
+    /\ stage = "start" /\ k >= 1 /\ ty \in {"int", "npint"}
     /\ rn' = k /\ rrem' = k /\ rsyms' = <<>> /\ mode' = "roman" /\ stage' = "roman"
-    /\ UNCHANGED <<x, n, xe, p, unit, out, conv, usrc>>
+    /\ opt' = [DefaultOpt EXCEPT !.xty = ty]
+    /\ UNCHANGED <<x, n, xe, p, unit, out, conv, usrc, sl>>
 
 RomanStep ==
     /\ stage = "roman" /\ rrem > 0
     /\ LET t == GreedyToken(rrem) IN rsyms' = rsyms \o t.s /\ rrem' = rrem - t.v
-    /\ UNCHANGED <<stage, mode, x, n, xe, p, unit, out, rn, conv, usrc>>
+    /\ UNCHANGED <<stage, mode, x, n, xe, p, unit, out, rn, conv, usrc, opt, sl>>
 
 RomanFinish ==
     /\ stage = "roman" /\ rrem = 0
     /\ stage' = "done"
-    /\ UNCHANGED <<mode, x, n, xe, p, unit, out, rn, rrem, rsyms, conv, usrc>>
+    /\ UNCHANGED <<mode, x, n, xe, p, unit, out, rn, rrem, rsyms, conv, usrc, opt, sl>>
 
 \* (the stage guard stands before the quantifier so that TLC does not enumerate the alphabet in every state)
 GenValue == stage = "start" /\ \E s \in Signs, d \in Sigs, e \in Exps : ChooseValue(Dec(s, d, e))
@@ -248,10 +298,11 @@ GenUnit == stage = "value" /\ \E u \in Units : WithUnit(u)
 GenPrecision == stage = "value" /\ \E k \in Precs : ChoosePrecision(k)
 GenUncert == stage = "value" /\ \E d \in UncSigs, o \in UncOffs, k \in UncPrecs, src \in UncSrcs :
                  ChooseUncert(Dec(FALSE, d, x.e - o), k, src)
+GenOptions == stage = "value" /\ \E o \in Opts : Options(o)
 GenConvert == stage = "value" /\ \E c \in Convs : ConvertTo(c.from, c.to)
-GenRoman == stage = "start" /\ \E k \in 1..RomanMax : RomanChoose(k)
+GenRoman == stage = "start" /\ \E k \in 1..RomanMax, ty \in SliceRec.RomanTypes : RomanChoose(k, ty)
 
-Next == GenValue \/ GenUnit \/ GenConvert \/ GenPrecision \/ Format \/ GenUncert \/ FormatUncert
+Next == GenValue \/ GenOptions \/ GenUnit \/ GenConvert \/ GenPrecision \/ Format \/ GenUncert \/ FormatUncert
         \/ GenRoman \/ RomanStep \/ RomanFinish
 
 Spec == Init /\ [][Next]_vars
@@ -278,11 +329,13 @@ ModelNumberDenotes ==
         /\ NumberOK(out, Shown(x), n, FALSE)
         /\ NumDenoted(out) = RoundSig(Shown(x), n)
 OmittedOnlyIfOne ==
-    (Done /\ mode = "number") => (out.omitted <=> (out.hasexp /\ RoundSig(Shown(x), n).digs = <<1>> /\ ~x.neg))
+    (Done /\ mode = "number") =>
+        /\ (out.omitted => (out.hasexp /\ RoundSig(Shown(x), n).digs = <<1>> /\ ~x.neg))
+        /\ (opt.fsty = "g" => ((out.hasexp /\ RoundSig(Shown(x), n).digs = <<1>> /\ ~x.neg) => out.omitted))
 
 ModelUncertDenotes ==
     (Done /\ mode = "uncert") =>
-        /\ UncertOK(out.chosen, Shown(x), Shown(xe), p, FALSE)
+        /\ UncertOK(out.chosen, Shown(x), ShownU(xe), p, FALSE)
         /\ UNominal(out.plain) = UNominal(out.expo) /\ UUncert(out.plain) = UUncert(out.expo)
         /\ out.chosen.len = MinInt(out.plain.len, out.expo.len)
 
@@ -301,25 +354,30 @@ Class ==
     THEN "num-" \o GStyle(RoundSig(Shown(x), n), n) \o (IF CarriesDecade(Shown(x), n) THEN "-carry" ELSE "")
          \o (IF IsTie(Shown(x), n) THEN "-tie" ELSE "") \o (IF out.omitted THEN "-one" ELSE "")
          \o (IF x.neg THEN "-neg" ELSE "") \o (IF unit # "" THEN "-unit" ELSE "")
+         \o (IF opt # DefaultOpt THEN "-opt" ELSE "") \o (IF opt.impl THEN "-impl" ELSE "")
+         \o (IF opt.fsty = "e" THEN "-e" ELSE "") \o (IF opt.xty # "float" THEN "-" \o opt.xty ELSE "")
+         \o (IF opt.api # "number" THEN "-" \o opt.api ELSE "")
          \o (IF conv # NoConv THEN "-conv" ELSE "")
     ELSE IF mode = "uncert"
     THEN "unc-" \o (IF out.chosen.hasexp THEN "exp" ELSE "plain")
-         \o (IF RoundAt(Shown(x), UExp(Shown(xe), p)).e > Shown(x).e THEN "-carry" ELSE "")
-         \o (IF RoundAt(Shown(xe), UExp(Shown(xe), p)).e > Shown(xe).e THEN "-ucarry" ELSE "")
-         \o (IF UExp(Shown(xe), p) > 0 THEN "-int" ELSE "") \o (IF x.neg THEN "-neg" ELSE "")
+         \o (IF RoundAt(Shown(x), UExp(ShownU(xe), p)).e > Shown(x).e THEN "-carry" ELSE "")
+         \o (IF RoundAt(ShownU(xe), UExp(ShownU(xe), p)).e > ShownU(xe).e THEN "-ucarry" ELSE "")
+         \o (IF UExp(ShownU(xe), p) > 0 THEN "-int" ELSE "") \o (IF x.neg THEN "-neg" ELSE "")
          \o (IF conv # NoConv THEN "-conv" ELSE "") \o "-" \o usrc
+         \o (IF opt.impl THEN "-impl" ELSE "") \o (IF opt.ucv # NoConv THEN "-ucv" ELSE "")
+         \o (IF opt.xty # "float" THEN "-" \o opt.xty ELSE "")
     ELSE "roman"
 CaseRec ==
     IF mode = "number"
-    THEN [in |-> [mode |-> mode, x |-> DecJ(x), n |-> n, unit |-> unit, conv |-> conv], cls |-> Class,
-          exp |-> [allowed |-> SetSeq({DecJ(r) : r \in RoundSigSet(Shown(x), n)}),
+    THEN [in |-> [mode |-> mode, x |-> DecJ(x), n |-> n, unit |-> unit, conv |-> conv, opt |-> opt, slice |-> sl], cls |-> Class,
+          exp |-> [allowed |-> SetSeq({DecJ(r) : r \in RoundSigSet(Shown(x), n) \cup {Shown(x)}}),   \* (more digits than asked for denote the value too)
                    omit_ok |-> (RoundsToOne(Shown(x), n) /\ ~x.neg), model |-> out]]
     ELSE IF mode = "uncert"
-    THEN [in |-> [mode |-> mode, x |-> DecJ(x), xe |-> DecJ(xe), p |-> p, unit |-> unit, conv |-> conv, usrc |-> usrc], cls |-> Class,
-          exp |-> [ue |-> UExp(Shown(xe), p),
-                   nominal |-> SetSeq({DecJ(r) : r \in RoundAtSet(Shown(x), UExp(Shown(xe), p))}),
-                   uncert |-> SetSeq({DecJ(r) : r \in RoundAtSet(Shown(xe), UExp(Shown(xe), p))}),
+    THEN [in |-> [mode |-> mode, x |-> DecJ(x), xe |-> DecJ(xe), p |-> p, unit |-> unit, conv |-> conv, usrc |-> usrc, opt |-> opt, slice |-> sl], cls |-> Class,
+          exp |-> [ue |-> UExp(ShownU(xe), p),
+                   nominal |-> SetSeq({DecJ(r) : r \in RoundAtSet(Shown(x), UExp(ShownU(xe), p))}),
+                   uncert |-> SetSeq({DecJ(r) : r \in RoundAtSet(ShownU(xe), UExp(ShownU(xe), p))}),
                    model |-> out.chosen]]
-    ELSE [in |-> [mode |-> mode, n |-> rn], cls |-> Class, exp |-> [syms |-> rsyms]]
+    ELSE [in |-> [mode |-> mode, n |-> rn, opt |-> opt, slice |-> sl], cls |-> Class, exp |-> [syms |-> rsyms]]
 Emit == Done => PrintT(<<"CASE", ToJson(CaseRec)>>)
 =============================================================================
